@@ -390,12 +390,15 @@ func mainLoop(o *hlib.Out, rng *hlib.Rng) {
 
 // largeLoop: a few plaintexts / associated data of 16–64 KiB, on chunk boundaries and powers of two.
 func largeLoop(o *hlib.Out, rng *hlib.Rng) {
-	n := hlib.N(10, 80)
+	n := hlib.N(30, 240)
 	big := func() int {
-		if rng.Intn(3) == 0 {
+		switch rng.Intn(6) {
+		case 0, 1:
 			return (1<<(14+rng.Intn(3)) + rng.Intn(3) - 1)
+		case 2, 3:
+			return rng.Pick(16, 17, 24, 31, 32, 33, 48, 63, 64)*1024 + chunkOffsets[rng.Intn(len(chunkOffsets))]
 		}
-		return rng.Pick(16, 17, 24, 31, 32, 33, 48, 63, 64)*1024 + chunkOffsets[rng.Intn(len(chunkOffsets))]
+		return (5+rng.Intn(11))*1024 + chunkOffsets[rng.Intn(len(chunkOffsets))] // 5..15 KiB
 	}
 	for c := 0; c < n; c++ {
 		o.Case()
